@@ -150,6 +150,11 @@ func (c *AnalyzeCommand) runAnalyze(cmd *cobra.Command, args []string) error {
 		c.verbose, _ = cmd.Parent().Flags().GetBool("verbose")
 	}
 
+	// Reject conflicting output format flags before any analysis runs
+	if _, _, err := c.determineOutputFormat(); err != nil {
+		return err
+	}
+
 	// Create use case configuration
 	config := c.createUseCaseConfig()
 
